@@ -105,6 +105,23 @@ func c08Clones(e, be *Engine, res *EpisodeResult) {
 			continue
 		}
 		for i := range got {
+			if ct, ok := p.Params["cancelTask"]; ok && int(ct) == ti {
+				co := int(p.Params["cancelOp"])
+				if i == co && got[i].HasErr && got[i].ErrIs["canceled"] {
+					e.probe("cloneRunCancelled")
+					// a cancelled run may stop anywhere: the following reads of this clone
+					// are not comparable, but the final re-run (all inputs set again) is
+					continue
+				}
+				if i > co && i < len(got)-2 && got[co].HasErr && got[co].ErrIs["canceled"] {
+					continue
+				}
+				if i > co && got[co].HasErr && got[co].ErrIs["canceled"] && want[ti][len(got)-2].HasErr {
+					// the re-run fails by itself before it has assigned every global:
+					// what the cancelled run left behind legitimately shows through
+					continue
+				}
+			}
 			if got[i].Outcome() != want[ti][i].Outcome() {
 				e.violate("C08.solo", "clone in slot %d, op %d (%s): interleaved execution gives %s; the same ops alone give %s",
 					p.Tasks[ti][i].Obj, i, got[i].Kind, clip(got[i].Outcome()), clip(want[ti][i].Outcome()))
